@@ -5,20 +5,23 @@ uses the analysis of the previous round) once resp. twice; model `Hpbf/Opt.lean`
 STAGE 4, PARTIAL.  What is proved here, for EVERY oracle:
 * the analysis a round records matches the blocks it emits, node by node (`optimizeOnce_shape'`), hence dead store
   elimination NEVER FAILS (the Rust never panics) on a round's output (`dse_total_after_round'`);
-* three of the four clauses of the hypothesis `C01Dse.AnalSound` of the DSE theorem hold for a round's output:
-  `ShiftFact` and `AtMostFact` always, `AtLeastFact` whenever the `once` marks are justified (`OnceOk`, proved for
-  the first round in `C01Rebuild`); the fourth clause (`ReadsFact`: in later iterations of a non-shifting loop a
-  cell outside the recorded `reads` is not read before it is written) remains a HYPOTHESIS
-  (`analSound_after_round1'`);
-* hence: first round, then dead store elimination, preserves the observable behaviour given `ReadsFact`
-  (`round1_dse_preserves'`);
-* composition (`optimize_preserves_of_steps'`): `Program::optimize` preserves the observable behaviour at EVERY
-  level as soon as the two kinds of later steps do, for any invariant `P` / `P1` of (program, analysis) pairs.
-NOT proved (open): `ReadsFact` for round outputs; the correctness of a round that USES a previous analysis
-(the analysis only enters through `can_ask_parent_for`; the level-1 proof is parametric in the parent interface, but
-its guards have to become "reachable source states"; see `Hpbf/Proofs/OptRb.README.md`).
+* **the analysis a round records is SOUND for the program it emits** — all four clauses of the hypothesis
+  `C01Dse.AnalSound` of the DSE theorem — for EVERY round (any previous analysis) whose `once` marks are justified
+  (`OnceOk`): `optimizeOnce_analSound'`.  (`ShiftFact`, `AtMostFact` always; `AtLeastFact` from `OnceOk`;
+  `ReadsFact` — in later iterations of a non-shifting loop a cell outside the recorded `reads` is not read before
+  it is written — from the structural pass `optimizeOnce_rdOk'` + adequacy w.r.t. the small-step semantics.)
+  For the first round `OnceOk` is proved in `C01Rebuild`, so: `analSound_round1'` (no hypothesis);
+* hence **first round, then dead store elimination, preserves the observable behaviour**: `round1_dse_behEq'`;
+  and dead store elimination after any round does, given `OnceOk` of that round's output: `round_dse_behEq'`;
+* composition: `Program::optimize` preserves the observable behaviour at EVERY level given the single obligation
+  `LaterRoundsOk` (a round that uses the previous analysis preserves behaviour and justifies its `once` marks):
+  `optimize_preserves_of_laterRounds'`; the more general `optimize_preserves_of_steps'` for arbitrary invariants.
+NOT proved (open): `LaterRoundsOk`, i.e. the correctness of a round that USES a previous analysis (the analysis
+only enters through `can_ask_parent_for`; the level-1 proof is parametric in the parent interface, but its guards
+have to become "reachable source states"; see `Hpbf/Proofs/OptRb.README.md`).
+The older statements with a `ReadsFact` hypothesis (`analSound_after_round1'`, `round1_dse_preserves'`) are kept.
 -/
-import Hpbf.Proofs.OptRbRounds
+import Hpbf.Proofs.OptRbRounds2
 
 namespace Hpbf
 namespace OptProof
@@ -80,6 +83,59 @@ theorem optimize_preserves_of_steps' (hw : 0 < w) {P P1 : Block w → OptAnalysi
     (h : Opt.optimize b level orders = .ok b') : BehEq b b' env :=
   optimize_preserves_of_steps hw hFirst hDse hRound hcl h
 
+/-! ### soundness of the recorded analysis, for every round -/
+
+/-- The structural read-before-write property of a round's output (`RdOkL`/`RdOkI`: `Hpbf/Proofs/OptRbRd1.lean`):
+for a non-shifting emitted loop with node `a`, from every state with non-zero condition in which the body does
+not reach an unjustified `once` mark, the body does not read a cell outside `a.reads` before writing it. -/
+theorem optimizeOnce_rdOk' {b : Block w} {prevAnal : OptAnalysis w} {os os' : Orders} {b' : Block w}
+    {anal' : OptAnalysis w} (hr : (optimizeOnce b prevAnal).run os = .ok ((b', anal'), os'))
+    (hcl : CanonL b.insts) : RdOkL b'.insts anal'.subBlocks :=
+  optimizeOnce_rdOk hr hcl
+
+example (c sh : Int) (body : List (Instr w)) (once : Bool) (a : OptAnalysis w)
+    (h : RdOkI (.loop c sh body once) a) :
+    (a.hasShift = false → ∀ σ : State w, σ.rd c ≠ 0#w → ¬ Bad body σ → ∀ v, v ∉ a.reads →
+      ¬ Exposes (σ.ptr + v) body σ) ∧ RdOkL body a.subBlocks :=
+  rdOkI_loop h
+
+theorem optimizeOnce_analSound' {b : Block w} {prevAnal : OptAnalysis w} {os os' : Orders} {b' : Block w}
+    {anal' : OptAnalysis w} (hr : (optimizeOnce b prevAnal).run os = .ok ((b', anal'), os'))
+    (hcl : CanonL b.insts) {env : Env} (ho : C02Emit.OnceOk b' env) :
+    C01Dse.AnalSound b' anal'.toDAnal env :=
+  optimizeOnce_analSound hr hcl ho
+
+theorem round_dse_behEq' {b : Block w} {prevAnal : OptAnalysis w} {os os' : Orders} {b1 b2 : Block w}
+    {anal1 : OptAnalysis w} (hr : (optimizeOnce b prevAnal).run os = .ok ((b1, anal1), os'))
+    (hcl : CanonL b.insts) {env : Env} (ho : C02Emit.OnceOk b1 env)
+    (hd : deadStoreElimination b1 anal1 = .ok b2) : BehEq b1 b2 env :=
+  round_dse_behEq hr hcl ho hd
+
+theorem analSound_round1' (hw : 0 < w) {b : Block w} (hcl : CanonL b.insts) {os os' : Orders}
+    {b1 : Block w} {anal1 : OptAnalysis w}
+    (hr : (optimizeOnce b (topAnalysis [] [])).run os = .ok ((b1, anal1), os')) (env : Env) :
+    C01Dse.AnalSound b1 anal1.toDAnal env :=
+  analSound_round1 hw hcl hr env
+
+theorem round1_dse_behEq' (hw : 0 < w) {b : Block w} (hcl : CanonL b.insts) {os os' : Orders}
+    {b1 b2 : Block w} {anal1 : OptAnalysis w}
+    (hr : (optimizeOnce b (topAnalysis [] [])).run os = .ok ((b1, anal1), os'))
+    (hd : deadStoreElimination b1 anal1 = .ok b2) (env : Env) : BehEq b b2 env :=
+  round1_dse_behEq hw hcl hr hd env
+
+example (env : Env) : LaterRoundsOk w env ↔
+    ∀ (prog1 : Block w) (anal : OptAnalysis w) (prog2 : Block w) (anal2 : OptAnalysis w) (os os2 : Orders),
+      (∃ prog, (C02Emit.OnceOk prog env ∧ ∃ (b : Block w) (prev : OptAnalysis w) (os os' : Orders),
+          CanonL b.insts ∧ (optimizeOnce b prev).run os = .ok ((prog, anal), os')) ∧
+        deadStoreElimination prog anal = .ok prog1) →
+      (optimizeOnce prog1 anal).run os = .ok ((prog2, anal2), os2) →
+      CanonL prog1.insts ∧ BehEq prog1 prog2 env ∧ C02Emit.OnceOk prog2 env := Iff.rfl
+
+theorem optimize_preserves_of_laterRounds' (hw : 0 < w) {env : Env} (hL : LaterRoundsOk w env)
+    {b b' : Block w} (hcl : CanonL b.insts) {level : Nat} {orders : Orders}
+    (h : Opt.optimize b level orders = .ok b') : BehEq b b' env :=
+  optimize_preserves_of_laterRounds hw hL hcl h
+
 end OptProof
 end Hpbf
 
@@ -90,3 +146,9 @@ end Hpbf
 #print axioms Hpbf.OptProof.analSound_after_round1'
 #print axioms Hpbf.OptProof.round1_dse_preserves'
 #print axioms Hpbf.OptProof.optimize_preserves_of_steps'
+#print axioms Hpbf.OptProof.optimizeOnce_rdOk'
+#print axioms Hpbf.OptProof.optimizeOnce_analSound'
+#print axioms Hpbf.OptProof.round_dse_behEq'
+#print axioms Hpbf.OptProof.analSound_round1'
+#print axioms Hpbf.OptProof.round1_dse_behEq'
+#print axioms Hpbf.OptProof.optimize_preserves_of_laterRounds'
